@@ -39,10 +39,13 @@
 #ifdef C08_USE_VSCHED
 #include "vsched.h"
 // the perturbation layer is not linked in this variant (vsched.c owns the pthread wrappers)
-volatile int c08_pert_mode; volatile uint64_t c08_pert_seed; volatile unsigned c08_pert_usec;
+int c08_pert_mode; uint64_t c08_pert_seed; unsigned c08_pert_usec;
 #endif
 #ifdef C08_EVENTS
 #include "c08_events.h"
+#define EVT(ev, t, a, b, c) c08_ev_add((ev), (uint64_t)(t), (uint64_t)(a), (uint64_t)(b), (uint64_t)(c))
+#else
+#define EVT(ev, t, a, b, c) ((void)0)
 #endif
 
 #define MAXSEG 24
@@ -510,8 +513,10 @@ static int one_call(drv_t *d, lzma_action action)
 	if (!ob) abort();
 	s->next_out = ob; s->avail_out = ao;
 	size_t ai = s->avail_in;
+	if (!d->is_ref) EVT(100, 0, ai, ao, action);
 	lzma_ret r = lzma_code(s, action);
 	size_t produced = ao - s->avail_out, consumed = ai - s->avail_in;
+	if (!d->is_ref) EVT(101, 0, r, consumed, produced);
 	d->res->calls++;
 	size_t before = d->res->out.n;
 	vec_add(&d->res->out, ob, produced);
@@ -618,6 +623,7 @@ static int drive(drv_t *d)
 		if (g->upd >= 0) {
 			chain_t ch; build_chain(g->upd, &ch);
 			lzma_ret r = lzma_filters_update(s, ch.f);
+			if (!d->is_ref) EVT(106, 0, g->upd, r, 0);
 			lzma_ret exp = blockfill > 0 ? LZMA_PROG_ERROR : LZMA_OK;
 			if (g->action == LZMA_FINISH) exp = LZMA_PROG_ERROR;
 			if (r != exp) return fail("filters-update-ret", "lzma_filters_update returned %d, expected %d (open Block holds %zu bytes)", (int)r, (int)exp, blockfill);
@@ -642,7 +648,7 @@ static lzma_ret init_mt(lzma_stream *s, const stream_cfg *c, unsigned threads, u
 // ---------------------------------------------------------------------------------------------------------------
 // watchdog
 // ---------------------------------------------------------------------------------------------------------------
-static volatile time_t g_deadline = 0;
+static long long g_deadline = 0;      // accessed with __atomic builtins only
 static unsigned long long g_steps, g_switches, g_sto, g_spur, g_hash;
 static char g_cur_id[64] = "-";
 int __real_pthread_create(pthread_t *, const pthread_attr_t *, void *(*)(void *), void *);
@@ -652,8 +658,8 @@ static void *watchdog(void *arg)
 	(void)arg;
 	for (;;) {
 		usleep(200000);
-		time_t dl = g_deadline;
-		if (dl != 0 && time(NULL) > dl) {
+		long long dl = __atomic_load_n(&g_deadline, __ATOMIC_ACQUIRE);
+		if (dl != 0 && (long long)time(NULL) > dl) {
 			char b[160]; int n = snprintf(b, sizeof b, "DEADLOCK id=%s code=watchdog detail=no_completion_within_the_time_limit\n", g_cur_id);
 			fflush(stdout);
 			if (write(1, b, (size_t)n) < 0) {}
@@ -675,23 +681,31 @@ int main(void)
 		snprintf(g_cur_id, sizeof g_cur_id, "%s", l.tok[1]);
 		stream_cfg *cfg = calloc(MAXSTREAM, sizeof *cfg); int ns = 0, bad = 0, dump = 0, pmode = 0, np = 0; unsigned pusec = 300; uint64_t pseed = 1; long wd = 180;
 		unsigned long long sc[8] = { 0, 1, 0, 3, 2000, 32, 4, 0 }; int use_sched = 0;   // mode seed sticky pct_depth pct_steps p_timeout p_spurious
+#ifdef C08_EVENTS
+		c08_ev_enabled = 0;
+#endif
 		for (int i = 2; i < l.ntok; ++i) {
 			if (!strncmp(l.tok[i], "S:", 2)) { if (ns >= MAXSTREAM || parse_stream(l.tok[i], &cfg[ns++]) != 0) bad = 1; }
 			else if (!strncmp(l.tok[i], "pert=", 5)) { unsigned long long a = 0, b = 1, c = 300; sscanf(l.tok[i] + 5, "%llu:%llu:%llu", &a, &b, &c); pmode = (int)a; pseed = b; pusec = (unsigned)c; }
 			else if (!strncmp(l.tok[i], "sched=", 6)) { use_sched = 1; sscanf(l.tok[i] + 6, "%llu:%llu:%llu:%llu:%llu:%llu:%llu", &sc[0], &sc[1], &sc[2], &sc[3], &sc[4], &sc[5], &sc[6]); }
 			else if (!strncmp(l.tok[i], "dump=", 5)) dump = atoi(l.tok[i] + 5);
 			else if (!strncmp(l.tok[i], "np=", 3)) np = atoi(l.tok[i] + 3);
+			else if (!strncmp(l.tok[i], "ev=", 3)) {
+#ifdef C08_EVENTS
+				c08_ev_enabled = atoi(l.tok[i] + 3);
+#endif
+			}
 			else if (!strncmp(l.tok[i], "wd=", 3)) wd = atol(l.tok[i] + 3);
 			else bad = 1;
 		}
 		if (bad || ns == 0) { printf("bad-op\n"); free(cfg); continue; }
 		g_failed = 0; g_fail[0] = 0; g_noprogress_checks = np;
-		g_deadline = time(NULL) + wd;
+		__atomic_store_n(&g_deadline, (long long)time(NULL) + wd, __ATOMIC_RELEASE);
 		uint8_t *input[MAXSTREAM] = {0};
 		stream_res *ref = calloc(MAXSTREAM, sizeof *ref), *res = calloc(MAXSTREAM, sizeof *res);
 		int failed_stream = -1;
 		// 1. reference runs (threads=1, timeout=0), fully validated
-		c08_pert_mode = 0;
+		C08_PERT_SET(0, 1, 0);
 		for (int i = 0; i < ns && !g_failed; ++i) {
 			input[i] = gen_input(&cfg[i]);
 			lzma_stream rs = LZMA_STREAM_INIT; chain_t ch;
@@ -709,7 +723,7 @@ int main(void)
 		unsigned long tot_blocks = 0, tot_fb = 0, tot_calls = 0, tot_noprog = 0, tot_fl = 0, tot_bar = 0, aborted = 0, tot_samples = 0, upd_ok = 0, upd_rej = 0, tot_in = 0, tot_out = 0, buferr = 0;
 		if (!g_failed) {
 			lzma_stream ts = LZMA_STREAM_INIT;
-			c08_pert_seed = pseed; c08_pert_usec = pusec; c08_pert_mode = pmode;
+			C08_PERT_SET(pmode, pseed, pusec);
 #ifdef C08_USE_VSCHED
 			sched_config scfg; memset(&scfg, 0, sizeof scfg);
 			scfg.mode = use_sched ? (sched_mode)sc[0] : SCHED_REAL; scfg.seed = sc[1]; scfg.sticky = (unsigned)sc[2]; scfg.pct_depth = (unsigned)sc[3];
@@ -724,7 +738,9 @@ int main(void)
 #endif
 			for (int i = 0; i < ns && !g_failed; ++i) {
 				chain_t ch;
+				EVT(102, cfg[i].flt, cfg[i].threads, cfg[i].bs, cfg[i].timeout);
 				lzma_ret r = init_mt(&ts, &cfg[i], cfg[i].threads, cfg[i].timeout, &ch);
+				EVT(104, 0, r, lzma_block_buffer_bound((size_t)cfg[i].bs), 0);
 				if (r != LZMA_OK) { fail("init", "lzma_stream_encoder_mt returned %d", (int)r); failed_stream = i; break; }
 				drv_t d; memset(&d, 0, sizeof d);
 				d.strm = &ts; d.c = &cfg[i]; d.input = input[i]; d.is_ref = 0; d.res = &res[i]; d.ref = &ref[i];
@@ -741,7 +757,9 @@ int main(void)
 				tot_samples += res[i].samples; upd_ok += res[i].upd_ok; upd_rej += res[i].upd_rej; tot_in += ts.total_in; tot_out += res[i].out.n; buferr += res[i].buferr;
 				for (size_t j = 0; j < ref[i].nblk; ++j) tot_fb += ref[i].blk[j].fallback;
 			}
+			EVT(103, 0, 0, 0, 0);
 			lzma_end(&ts);
+			EVT(105, 0, 0, 0, 0);
 #ifdef C08_USE_VSCHED
 			sched_stats sst; sched_end(&sst);
 			g_steps = sst.steps; g_switches = sst.switches; g_sto = sst.timeouts; g_spur = sst.spurious; g_hash = sst.trace_hash;
@@ -749,9 +767,9 @@ int main(void)
 #ifdef C08_EVENTS
 			c08_ev_end();
 #endif
-			c08_pert_mode = 0;
+			C08_PERT_SET(0, 1, 0);
 		}
-		g_deadline = 0;
+		__atomic_store_n(&g_deadline, 0LL, __ATOMIC_RELEASE);
 		if (g_failed) printf("FAIL id=%s stream=%d %s\n", l.tok[1], failed_stream, g_fail);
 		else {
 			printf("ok id=%s streams=%d aborted=%lu blocks=%lu fallback=%lu calls=%lu noprog=%lu buferr=%lu flush=%lu barrier=%lu samples=%lu upd_ok=%lu upd_rej=%lu in=%lu out=%lu",
